@@ -105,6 +105,85 @@ def result_oracle(name):
     return None
 
 
+def forms_of(tok, v):
+    """Which renderings of the return word `v` the token can be."""
+    f = set()
+    if tok == str(v):
+        f.add('dec')
+    if tok == hex(v):
+        f.add('hex')
+    if tok == str(bool(v)):
+        f.add('bool')
+    if tok == str(v - (1 << 64) if v >= 1 << 63 else v):
+        f.add('signed64')
+    if tok == str(v & 0xffffffff):
+        f.add('mask32')
+    return f
+
+
+def history_search(rep, rng, tier):
+    """Results must not depend on what was decoded before (the result part depends only on the END record):
+    render every decoder for several return words, in alternating decoder orders inside ONE process, and require
+    that each decoder renders its return word in one consistent form."""
+    sec = rep.section('result-history')
+    sec['rule'] = ('failing-input search on the real code: all non-exempt BSD decoders x return words rendered in one '
+                   'process in alternating decoder order; a decoder whose rendering form (decimal / hex / signed / bool) '
+                   'changes with what was decoded earlier depends on more than its END record')
+    lookups = [['/p/one', 11], ['/q/two', 22], ['/r/three', 33], ['/s/4', 44], ['/t/5', 55], ['/u/6', 66]]
+    names = [n for n in bsd_names(only_supported=False) if n not in EXEMPT and n != 'BSC_pipe']
+    bases = {}
+    for n in names:
+        b = find_base(n, lookups, [0, 9, 0, 0])
+        if b is not None:
+            bases[n] = b
+    seen = {n: [] for n in bases}
+
+    def observe(n, v):
+        t = render(n, bases[n], [0, v, 0x6a2d, 0x7b1c], lookups)
+        sec['cases'] += 1
+        if t is None:
+            return
+        sp = D.split_call(t)
+        if sp is None:
+            return
+        shown = re.sub(r'"[^"]*"', '', sp[2])
+        toks = re.findall(r'-?0x[0-9a-f]+|-?\d+|True|False', shown)
+        if toks:
+            seen[n].append((v, toks[0], t))
+
+    # pass 1: every decoder renders a return word nobody rendered before (its own form shows)
+    salt = rng.randrange(1 << 20, 1 << 30) * 1024
+    own = {}
+    for i, n in enumerate(bases):
+        own[n] = salt + i
+        observe(n, own[n])
+    special = [n for n, obs in seen.items() if obs and 'dec' not in forms_of(obs[0][1], obs[0][0])]
+    plain = [n for n, obs in seen.items() if obs and 'dec' in forms_of(obs[0][1], obs[0][0])]
+    # pass 2: every decoder renders the words first rendered by decoders of ANOTHER form (and a few of its own kind)
+    for n in bases:
+        others = [m for m in special if m != n] + ([m for m in rng.sample(plain, min(4, len(plain))) if m != n])
+        for m in others:
+            observe(n, own[m])
+    # pass 3: the wrap-around word in both orders
+    for n in (list(bases) + list(reversed(list(bases)))):
+        observe(n, (1 << 64) - 1 - (0 if n in special else 1))
+    for n, obs in seen.items():
+        if not obs:
+            continue
+        common = None
+        for v, tok, t in obs:
+            f = forms_of(tok, v)
+            common = f if common is None else common & f
+        if not common:
+            sec['distinct_nontrivial'] += 0
+            rep.add_failure('result:%s:depends-on-history' % n,
+                            'decoder %s renders its return word inconsistently within one process: %s'
+                            % (n, [(v, tok) for v, tok, _ in obs]),
+                            {'section': 'result-history', 'decoder': n, 'start': bases[n], 'observations': obs})
+        else:
+            sec['distinct_nontrivial'] += 1
+
+
 def correspondence(rep, rng, tier):
     names = bsd_names()
     D.section_decoders(rep, rng, tier, names=names, name='decoders-bsd')
@@ -122,6 +201,7 @@ def correspondence(rep, rng, tier):
             rep.add_failure(r[0], r[1], {'section': 'results', 'decoder': n, 'case': r[2]})
     sec['dist'] = {'bsd_decoders': len(names), 'exempt_present': len([n for n in names if n in EXEMPT])}
     _matching(rep, rng, tier)
+    history_search(rep, rng, tier)
 
 
 def _matching(rep, rng, tier):
